@@ -9,6 +9,7 @@ import Iavl.Model.Store
 import Iavl.Model.KV
 import Iavl.Model.ReadCost
 import Iavl.Model.Ics23
+import Iavl.Model.ProofGen
 /-
   The executable face of the model: a line-protocol interpreter that answers every operation of a
   history with exactly the definitions the theorems are about (`VTree.step`, `hashNode`, `mkProof`,
@@ -61,26 +62,9 @@ def fmtExist (p : ExistProof) : String :=
   "E(" ++ enc (some p.key) ++ " " ++ enc (some p.value) ++ " " ++ enc (some p.leafPfx) ++ " [" ++
     " ".intercalate (p.path.map fun op => enc (some op.pfx) ++ ":" ++ enc (some op.sfx)) ++ "])"
 
-inductive ProofRes where
-  | err
-  | exist (p : ExistProof)
-  | nonexist (key : Bytes) (l r : Option ExistProof)
-
-def memProof (working : Nat) (t : T) (key : Bytes) : ProofRes :=
-  let p := mkProof H working t key
-  if p.key = key then .exist p else .err
-
-def nonMemProof (working : Nat) (t : T) (key : Bytes) : ProofRes :=
-  let (idx, val) := t.get key
-  match val with
-  | some _ => .err
-  | none =>
-    let l := if idx ≥ 1 then (t.getByIndex (idx - 1)).map (fun kv => mkProof H working t kv.1) else none
-    let r := (t.getByIndex idx).map (fun kv => mkProof H working t kv.1)
-    .nonexist key l r
-
-def getProof (working : Nat) (t : T) (key : Bytes) : ProofRes :=
-  if t.has key then memProof working t key else nonMemProof working t key
+def memProof (working : Nat) (t : T) (key : Bytes) : ProofRes := memProofG H working t key
+def nonMemProof (working : Nat) (t : T) (key : Bytes) : ProofRes := nonMemProofG H working t key
+def getProof (working : Nat) (t : T) (key : Bytes) : ProofRes := getProofG H working t key
 
 def fmtOptExist : Option ExistProof → String
   | none => "nil"
